@@ -210,9 +210,13 @@ func (s *Server) readPacket(rawRead []byte, handshakeWriteBuf []byte) error {
 				logrus.Tracef("server: raw read: %x", rawRead[:msgLen])
 			}
 
-			_, hs, err := s.readPQClientAuth(rawRead[:msgLen], addr)
+			n, hs, err := s.readPQClientAuth(rawRead[:msgLen], addr)
 			if err != nil {
 				return err
+			}
+			if n != msgLen {
+				logrus.Debug("server: client auth had extra data")
+				return ErrInvalidMessage
 			}
 			logrus.Debug("server: finishHandshake")
 			if err := s.finishHandshake(hs, false); err != nil {
